@@ -31,7 +31,7 @@ class DecrementNode(Node):
 
     def __str__(self) -> str:
         assert isinstance(self.token, TagToken)
-        return f"{{%{self.token.wc[0]} decrement {self.name} {self.token.wc[1]}%}}"
+        return f"{{%{self.token.wc[0]} decrement {self.name.as_source()} {self.token.wc[1]}%}}"
 
     def render_to_output(self, context: RenderContext, buffer: TextIO) -> int:
         """Render the node to the output buffer."""
